@@ -1251,6 +1251,7 @@ def _int_width(t):
 
 
 def run(rep, tier):
+    rep.rule('R07u', 'front() / back() of the coordinate list only where it is non-empty (the zero vector is a value)', floor=0)
     rep.rule('R17f', 'size() is as wide as the coordinate list length', floor=1)
     rep.rule('R07d', 'no dereference of a past-the-end iterator in the vector class (reachable from its operations)', floor=0)
     rep.rule('R17a', 'merge action tables of operator+ / operator* and strictness of shortcut guards', floor=3)
@@ -1273,6 +1274,7 @@ def run(rep, tier):
         check_size_width(rep, prog)
         from . import c07
         c07.r07d(rep, prog, only_files=('spvecgf2',))
+        c07.r07u(rep, prog, only_files=('spvecgf2',))
         sub = type(rep)(rep.prop, rep.tier)
         c04.check_wire(sub, prog)
         for i in sub.instances.values():
